@@ -281,6 +281,21 @@ func genC06Case(t *rapid.T) C06Case {
 	if inTxn {
 		c.Ops = append(c.Ops, SQLOp{Kind: "commit"})
 	}
+	// inside transactions, some statements run under the previous statement's write time
+	// (what happens by default when the connection sets none): non-decreasing, not increasing
+	in := false
+	for i := range c.Ops {
+		switch c.Ops[i].Kind {
+		case "begin":
+			in = true
+		case "commit":
+			in = false
+		case "ins", "upd", "del":
+			if in && rapid.IntRange(0, 2).Draw(t, "keeptime") == 0 {
+				c.Ops[i].KeepTime = true
+			}
+		}
+	}
 	return c
 }
 
@@ -529,7 +544,7 @@ func init() { register("TestC06_Diff", runC06) }
 func TestC06_Diff(t *testing.T) {
 	st := newStats(t, "C06", "TestC06_Diff", "programs of 1-40 statements (INSERT single/multi-row with and without column lists, NULL and duplicate keys; UPDATE/DELETE with key and non-key predicates; SELECT with = < <= > >= IN BETWEEN conjunctions over probes below/inside/above the key range and of other classes, ORDER BY k [DESC], LIMIT/OFFSET, aggregates; BEGIN..COMMIT; drop/re-create; new connection) run in lock-step on an s3db table (entries_per_node 2..4096, cache 0/3/1000, 1-4 columns, key column anywhere, 5-40 keys of all classes) and on a native WITHOUT ROWID table; non-trivial = a range or descending query answered from a tree of height>=1")
 	st.Assume = append(st.Assume,
-		"write_time strictly increases per statement (the property's precondition is non-decreasing; equal times are known finding K2)",
+		"write_time is non-decreasing: inside transactions a third of the statements run under the previous statement's write time",
 		"multi-row INSERTs that fail part-way are compared only in autocommit mode on trees where known findings K3/K4 cannot trigger; the rest are counted under excluded")
 	checkRapid(t, st, genC06Case, runC06)
 }
